@@ -27,6 +27,7 @@ class Interpolation
 	bool correlated_calls;	 // if successive calls are correlated, then the hunt method can be faster.
 	unsigned int Bisection(double x, int jLeft, int jRight);
 	unsigned int Hunt(double x);
+	std::vector<double> Extrapolation_Zone_Values(double x_1, double x_2);
 
   public:
 	std::vector<double> domain;
